@@ -24,9 +24,34 @@ def binary_after_view(case):
     return case.get("variant") == "extract" and any(op == "add" and i >= 1 for i, op in enumerate(ops))
 
 
+AR = dict(u1=1, u2=1, b=2, t=3, swap=2, dup=1, dig2=3, bury2=3)
+OUT = dict(u1=1, u2=1, b=1, t=1, swap=2, dup=2, dig2=3, bury2=3)
+
+
+def _machine(comp, n):
+    """final stack of the stack machine on leaves 0..n-1 (terms as nested tuples) and the true arity"""
+    st = list(range(n))
+    for f in reversed(comp):
+        a, rest = st[:AR[f]], st[AR[f]:]
+        if f == "swap": st = [a[1], a[0]] + rest
+        elif f == "dup": st = [a[0], a[0]] + rest
+        elif f == "dig2": st = [a[2], a[0], a[1]] + rest
+        elif f == "bury2": st = [a[1], a[2], a[0]] + rest
+        else: st = [(f,) + tuple(a)] + rest
+    return st
+
+
+def fstack_passes_operand_through(case):
+    """the final stack contains an operand that no functor consumed (a combinator passed it through): over fixed-size operands the library hands
+    back a pointer to a copy inside a temporary functor (use after scope: garbage or, by luck, the right values)"""
+    if case.get("op") != "fstack": return False
+    return any(isinstance(t, int) for t in _machine(case["comp"], len(case["shapes"])))
+
+
 def run(tier, seed):
     ck = Check("C14", tier, seed)
     ck.preds["c14_extract_binary_after_view"] = binary_after_view
+    ck.preds["c14_fstack_passes_operand_through"] = fstack_passes_operand_through
     quick = tier == "quick"
     maxd = 2 if quick else 3
     ck.add_mc(vlib.tlc_model_check("Functional", "MC_Functional_" + tier, workers=8, timeout=2400))
@@ -50,14 +75,30 @@ def run(tier, seed):
         if cases:
             opslib.run_ops(ck, bins[i], cases, want="all", label=f"fn{i}", nproc=max(2, vlib.NCPU // 3),
                            describe=lambda c, k: f"functional {'*'.join(s['op'] for s in reversed(c['prog']))} [{c['variant']}]: {k}")
-    ck.nontrivial_count = len({vlib.canon([p["leaf"], p["prog"]]) for p in progs if len(p["prog"]) >= 2})
+    # combinators: compositions over {negative, square, subtract, where, swap, dup, dig2, bury2} under every named operand split and both groupings
+    names = ["u1", "u2", "b", "t", "swap", "dup", "dig2", "bury2"]
+    stab = vlib.tlc_generate("GenStack", "GenStack_" + tier)
+    sbins = vlib.build_drivers([dict(name="drv_stack", flags=(f"-DMAXD={2 if quick else 3}", f"-DFIRST_IDX={i}", "-O0"), tag=f"_d{2 if quick else 3}_{i}") for i in range(len(names))])
+    sby = {i: [] for i in range(len(names))}
+    for c in stab:
+        n += 1
+        sby[names.index(c["comp"][0])].append(dict(c, id=n))
+    for i, cases in sby.items():
+        if cases:
+            opslib.run_ops(ck, sbins[i], cases, want="all", label=f"stack{i}", nproc=4,
+                           describe=lambda c, k: f"composition {'*'.join(c['comp'])} applied with split '{c['split']}' ({c['group']} grouping): {k}")
+    ck.extra["combinator_compositions"] = len({vlib.canon(c["comp"]) for c in stab})
+    ck.extra["combinator_cases"] = len(stab)
+    ck.nontrivial_count = len({vlib.canon([p["leaf"], p["prog"]]) for p in progs if len(p["prog"]) >= 2}) + len({vlib.canon(c["comp"]) for c in stab if len(c["comp"]) >= 2})
     ck.rule = ("programs = the chains of the program machine (depth <= 2, thorough <= 3) over transpose, flip, reshape, tile, reduce_add, add with a second leaf (binary functor in any position), roll, expand_dims; "
                "for each: the direct view, the composed functor applied to all operands at once, applied one operand at a time (currying), both groupings of the composition "
                "(f3*f2)*f1 / f3*(f2*f1) resp. (f2*f1)(a..) / f2(f1(a),..), the extracted composition applied to the extracted operands, the identity (addresses) and order of the extracted operands, "
-               "and the compute graph (leaf count, unique ids, in-degree = listed operands, node accounting); all validated by TLC against the program's denotation")
+               "and the compute graph (leaf count, unique ids, in-degree = listed operands, node accounting); all validated by TLC against the program's denotation; "
+               "combinators: every composition of <= 2 (thorough 3) functors over {negative, square, subtract, where, swap, dup, dig2, bury2} with arity 1..5 (TLC export from StackMachine.tla), applied all at once, "
+               "one operand at a time, (1, n-1), (n-1, 1), (n/2, rest), left and right grouping; the resulting stack (one array or a tuple) must be the stack machine's, interpreted on the operand values")
     ck.exhaustive = quick
     ck.extra.update(programs=len(progs), depth=maxd)
-    ck.assumptions += ["combinators swap/dup/dig/bury are checked at the design level (Functional.tla) only; conv/pooling/norm functors are not driven",
+    ck.assumptions += ["conv/pooling/norm functors are not driven",
                        "compute-graph checks are structural (node accounting, ids, in-degrees), composite views may contribute several function nodes"]
     for p in progs[:3]: ck.sample(p)
     return ck.finish()
@@ -65,6 +106,18 @@ def run(tier, seed):
 
 def replay(rec):
     case = dict(rec["case"]); case["id"] = 1
+    if case.get("op") == "fstack":
+        names = ["u1", "u2", "b", "t", "swap", "dup", "dig2", "bury2"]
+        d = max(2, len(case["comp"])); i = names.index(case["comp"][0])
+        drv = vlib.build_driver("drv_stack", flags=(f"-DMAXD={d}", f"-DFIRST_IDX={i}", "-O0"), tag=f"_d{d}_{i}")
+        wd = os.path.join(vlib.BUILD, "replay"); os.makedirs(wd, exist_ok=True)
+        files = vlib.run_driver(drv, [case], wd, "replay", nproc=1)
+        mism, st = vlib.validate_traces("TraceOps", files)
+        ev = [json.loads(l) for l in open(files[0])][0]
+        print("composition:", "*".join(case["comp"]), "split", case["split"], "grouping", case["group"]); print("observed:", vlib.canon(ev.get("res")))
+        for m in mism: print("expected:", vlib.canon(m["expect"]))
+        print("replay:", "mismatch reproduced on the current tree" if mism else "no mismatch on the current tree")
+        return 1 if mism else 0
     i = OPS.index(case["prog"][0]["op"]); maxd = max(2, len(case["prog"]))
     drv = vlib.build_driver("drv_functional", flags=(f"-DMAXD={maxd}", f"-DFIRST_IDX={i}", "-O0"), tag=f"_d{maxd}_{i}")
     wd = os.path.join(vlib.BUILD, "replay"); os.makedirs(wd, exist_ok=True)
